@@ -68,3 +68,369 @@ if not getattr(_p2l.Translator, '_c07_append_patch', False):
 
     _p2l.Translator.stmt = _stmt
     _p2l.Translator._c07_append_patch = True
+
+
+# ---------------------------------------------------------------------------------------------
+# Skeleton slicer: the synchronisation skeleton of `sigma_filter` (which barrier waits and which accesses
+# to the shared maps lie on which path, early returns included) and the except clauses of `_sf2`, as Lean
+# terms of type Aegean.Model.C07.Skel / List Handler.
+#
+# Conservative by construction: anything that hands the barrier or a shared map to code the slicer cannot
+# read, a `try` around tracked events, recursion … is UNTRANSLATABLE (the hand fallback is used and only
+# the runs tie the code).  Normalised shapes: helper functions (module level or nested) whose body can be
+# read are inlined with their parameters bound to the tracked objects passed in; aliases by plain
+# assignment; early returns / guard clauses; `if barrier is not None:` is taken (the workers always get
+# the barrier from the pool initialiser); calls to the verification hook `_verif_*` are ignored.
+# ---------------------------------------------------------------------------------------------
+class _Skel(object):
+    def __init__(self, tree):
+        self.module_funcs = {n.name: n for n in tree.body if isinstance(n, _ast.FunctionDef)}
+
+    # --- Lean printing ---
+    @staticmethod
+    def seq(items):
+        items = [i for i in items if i != '.skip']
+        if not items:
+            return '.skip'
+        out = items[-1]
+        for i in reversed(items[:-1]):
+            out = f'(.seq {i} {out})'
+        return out
+
+    # --- expressions ---
+    def base_name(self, node):
+        while isinstance(node, (_ast.Subscript, _ast.Attribute)):
+            node = node.value
+        return node.id if isinstance(node, _ast.Name) else None
+
+    def reads(self, node, env, funcs, depth):
+        """events of evaluating an expression, in evaluation order (approximately: calls first)"""
+        out = []
+        if node is None:
+            return out
+        if isinstance(node, _ast.Call):
+            return self.call(node, env, funcs, depth)
+        if isinstance(node, _ast.Name):
+            tag = env.get(node.id)
+            if tag == 'barrier':
+                raise _p2l.Untranslatable(f"the barrier is used as a value: {node.id}")
+            if isinstance(tag, tuple) and tag[0] == 'arr' and isinstance(node.ctx, _ast.Load):
+                out.append('(.ev .rBkg)' if tag[1] == 'bkg' else '(.ev .rRms)')
+            return out
+        if isinstance(node, (_ast.Lambda, _ast.GeneratorExp, _ast.ListComp, _ast.SetComp, _ast.DictComp)):
+            for n in _ast.walk(node):
+                if isinstance(n, _ast.Name) and env.get(n.id) is not None:
+                    raise _p2l.Untranslatable("tracked object inside a comprehension / lambda")
+            return out
+        for ch in _ast.iter_child_nodes(node):
+            out += self.reads(ch, env, funcs, depth)
+        return out
+
+    def call(self, node, env, funcs, depth):
+        f = node.func
+        out = []
+        # barrier methods
+        if isinstance(f, _ast.Attribute) and isinstance(f.value, _ast.Name) and env.get(f.value.id) == 'barrier':
+            if f.attr in ('wait', 'reset', 'abort'):
+                for a in node.args:
+                    out += self.reads(a, env, funcs, depth)
+                return out + [f'(.ev .{f.attr})']
+            raise _p2l.Untranslatable(f"barrier.{f.attr}")
+        name = f.id if isinstance(f, _ast.Name) else None
+        if name and name.startswith('_verif_'):
+            return out
+        target = None
+        if name:
+            target = funcs.get(name) or self.module_funcs.get(name)
+        # SharedMemory / ndarray constructors are handled by the assignment; as bare calls they do nothing here
+        if target is not None:
+            if depth > 4:
+                raise _p2l.Untranslatable(f"helper nesting too deep at {name}")
+            if any(isinstance(a, _ast.Starred) for a in node.args) or any(k.arg is None for k in node.keywords):
+                for a in list(node.args) + [k.value for k in node.keywords]:
+                    for n in _ast.walk(a):
+                        if isinstance(n, _ast.Name) and env.get(n.id) is not None:
+                            raise _p2l.Untranslatable(f"tracked object passed through * / ** to {name}")
+            params = [a.arg for a in target.args.args]
+            new_env = {k: v for k, v in env.items() if k not in params and v == 'barrier' and k == 'barrier'}
+            new_env.setdefault('barrier', 'barrier')
+            for k, a in enumerate(node.args):
+                if isinstance(a, _ast.Name) and env.get(a.id) is not None and k < len(params):
+                    new_env[params[k]] = env[a.id]
+                else:
+                    out += self.reads(a, env, funcs, depth)
+            for kw in node.keywords:
+                if isinstance(kw.value, _ast.Name) and env.get(kw.value.id) is not None and kw.arg in params:
+                    new_env[kw.arg] = env[kw.value.id]
+                else:
+                    out += self.reads(kw.value, env, funcs, depth)
+            body = self.block(target.body, new_env, {}, depth + 1)
+            if not self.has_events(body) and '.raise_' not in body:
+                # a helper that neither synchronises, touches the shared maps nor raises: its return only ends the helper
+                return out
+            return out + [f'(.call {body})']
+        # a call the slicer cannot read: it must not receive the barrier or a shared map as such
+        for a in list(node.args) + [k.value for k in node.keywords]:
+            if isinstance(a, _ast.Name) and env.get(a.id) is not None and not (
+                    isinstance(env.get(a.id), tuple) and env[a.id][0] == 'shm'):
+                raise _p2l.Untranslatable(f"{a.id} is handed to {_ast.unparse(f)}, which the slicer cannot read")
+            out += self.reads(a, env, funcs, depth)
+        if isinstance(f, _ast.Attribute):
+            b = self.base_name(f)
+            if b and isinstance(env.get(b), tuple) and env[b][0] == 'arr':
+                # a method of a shared map (ibkg.fill(…)): could read or write
+                raise _p2l.Untranslatable(f"method {f.attr} of a shared map")
+            out += self.reads(f.value, env, funcs, depth)
+        return out
+
+    # --- statements ---
+    def classify_shm(self, value, env):
+        """('shm', kind) for SharedMemory(name=f'ibkg_…'), ('arr', kind) for np.ndarray(…, buffer=<shm>.buf)"""
+        if not isinstance(value, _ast.Call):
+            return None
+        fn = value.func
+        fname = fn.id if isinstance(fn, _ast.Name) else (fn.attr if isinstance(fn, _ast.Attribute) else None)
+        if fname == 'SharedMemory':
+            for kw in value.keywords:
+                if kw.arg == 'name':
+                    txt = _ast.unparse(kw.value)
+                    if 'ibkg_' in txt:
+                        return ('shm', 'bkg')
+                    if 'irms_' in txt:
+                        return ('shm', 'rms')
+            raise _p2l.Untranslatable("SharedMemory with a name the slicer does not recognise")
+        if fname in ('ndarray', 'frombuffer'):
+            for kw in value.keywords:
+                if kw.arg == 'buffer':
+                    b = self.base_name(kw.value)
+                    if b and isinstance(env.get(b), tuple) and env[b][0] == 'shm':
+                        return ('arr', env[b][1])
+        return None
+
+    def target_events(self, tgt, env, funcs, depth):
+        out = []
+        if isinstance(tgt, (_ast.Tuple, _ast.List)):
+            for e in tgt.elts:
+                out += self.target_events(e, env, funcs, depth)
+            return out
+        if isinstance(tgt, _ast.Name):
+            return out
+        b = self.base_name(tgt)
+        # index expressions are evaluated (they may read)
+        node = tgt
+        while isinstance(node, (_ast.Subscript, _ast.Attribute)):
+            if isinstance(node, _ast.Subscript):
+                out += self.reads(node.slice, env, funcs, depth)
+            node = node.value
+        if b and env.get(b) == 'barrier':
+            raise _p2l.Untranslatable("assignment to an attribute of the barrier")
+        if b and isinstance(env.get(b), tuple) and env[b][0] == 'arr':
+            out.append('(.ev .wBkg)' if env[b][1] == 'bkg' else '(.ev .wRms)')
+        return out
+
+    def block(self, body, env, funcs, depth):
+        items = []
+        funcs = dict(funcs)
+        for st in body:
+            items.append(self.stmt(st, env, funcs, depth))
+        return self.seq(items)
+
+    def has_events(self, skel):
+        return '.ev ' in skel
+
+    def stmt(self, st, env, funcs, depth):
+        if isinstance(st, _ast.FunctionDef):
+            funcs[st.name] = st
+            return '.skip'
+        if isinstance(st, _ast.Assign):
+            ev = []
+            kind = self.classify_shm(st.value, env)
+            if kind is None:
+                ev += self.reads(st.value, env, funcs, depth)
+            for tgt in st.targets:
+                ev += self.target_events(tgt, env, funcs, depth)
+                if isinstance(tgt, _ast.Name):
+                    if kind is not None:
+                        env[tgt.id] = kind
+                    elif isinstance(st.value, _ast.Name) and env.get(st.value.id) is not None:
+                        env[tgt.id] = env[st.value.id]
+                    elif isinstance(st.value, _ast.Subscript) and isinstance(env.get(self.base_name(st.value)), tuple) \
+                            and env[self.base_name(st.value)][0] == 'arr':
+                        # a slice of a shared map is a view of the same memory: writes through it are writes to the map
+                        env[tgt.id] = env[self.base_name(st.value)]
+                    elif tgt.id in env:
+                        if env[tgt.id] == 'barrier':
+                            raise _p2l.Untranslatable("the barrier name is rebound")
+                        del env[tgt.id]
+                elif isinstance(tgt, (_ast.Tuple, _ast.List)):
+                    for e in tgt.elts:
+                        if isinstance(e, _ast.Name) and e.id in env:
+                            raise _p2l.Untranslatable(f"tracked name {e.id} rebound in a tuple assignment")
+            # reading `X = ibkg` as an alias, not as a read
+            if isinstance(st.value, _ast.Name) and env.get(st.value.id) is not None:
+                ev = [e for e in ev if e not in ('(.ev .rBkg)', '(.ev .rRms)')] if len(st.targets) == 1 else ev
+            return self.seq(ev)
+        if isinstance(st, _ast.AugAssign):
+            ev = self.reads(st.value, env, funcs, depth)
+            b = self.base_name(st.target)
+            if isinstance(st.target, _ast.Name) and st.target.id in env:
+                raise _p2l.Untranslatable(f"in-place update of tracked name {st.target.id}")
+            if b and isinstance(env.get(b), tuple) and env[b][0] == 'arr':
+                ev.append('(.ev .rBkg)' if env[b][1] == 'bkg' else '(.ev .rRms)')
+            ev += self.target_events(st.target, env, funcs, depth)
+            return self.seq(ev)
+        if isinstance(st, _ast.Expr):
+            return self.seq(self.reads(st.value, env, funcs, depth))
+        if isinstance(st, _ast.Return):
+            return self.seq(self.reads(st.value, env, funcs, depth) + ['.ret'])
+        if isinstance(st, _ast.Raise):
+            return self.seq(self.reads(st.exc, env, funcs, depth) + ['.raise_'])
+        if isinstance(st, _ast.If):
+            test = st.test
+            txt = _ast.unparse(test)
+            pre = []
+            if txt in ('barrier is not None', 'barrier'):
+                return self.block(st.body, env, funcs, depth)
+            e1, e2 = dict(env), dict(env)
+            thn = self.block(st.body, e1, funcs, depth)
+            els = self.block(st.orelse, e2, funcs, depth)
+            if e1 != e2 and (self.has_events(thn) or self.has_events(els) or True):
+                # the branches leave different aliases behind
+                if any(e1.get(k) != e2.get(k) for k in set(e1) | set(e2)):
+                    raise _p2l.Untranslatable("tracked names differ between the branches of an if")
+            env.clear()
+            env.update(e1)
+            if txt == 'domask':
+                return f'(.ifMask {thn} {els})'
+            if txt == 'not domask':
+                return f'(.ifMask {els} {thn})'
+            if 'domask' in [n.id for n in _ast.walk(test) if isinstance(n, _ast.Name)]:
+                raise _p2l.Untranslatable(f"condition mixes domask with something else: {txt}")
+            pre = self.reads(test, env, funcs, depth)
+            if thn == '.skip' and els == '.skip':
+                return self.seq(pre)
+            return self.seq(pre + [f'(.ifData {thn} {els})'])
+        if isinstance(st, (_ast.Break, _ast.Continue)):
+            return '.brk'
+        if isinstance(st, (_ast.For, _ast.While)):
+            pre = self.reads(st.iter if isinstance(st, _ast.For) else st.test, env, funcs, depth)
+            body = self.block(list(st.body) + list(st.orelse), env, funcs, depth)
+            if '.brk' in body:
+                if self.has_events(body) or '.ret' in body or '.raise_' in body:
+                    raise _p2l.Untranslatable("break / continue in a loop that synchronises, returns or raises")
+                body = '.skip'
+            if body == '.skip':
+                return self.seq(pre)
+            return self.seq(pre + [f'(.loop {body})'])
+        if isinstance(st, _ast.With):
+            pre = []
+            for it in st.items:
+                pre += self.reads(it.context_expr, env, funcs, depth)
+            return self.seq(pre + [self.block(st.body, env, funcs, depth)])
+        if isinstance(st, _ast.Try):
+            parts = [self.block(st.body, env, funcs, depth)] + [self.block(h.body, env, funcs, depth) for h in st.handlers] + \
+                    [self.block(st.orelse, env, funcs, depth), self.block(st.finalbody, env, funcs, depth)]
+            if any(self.has_events(p) or '.ret' in p for p in parts):
+                raise _p2l.Untranslatable("try statement around synchronisation / shared-map accesses")
+            return '(.ifData .skip .raise_)'
+        if isinstance(st, (_ast.Delete, _ast.Pass, _ast.Import, _ast.ImportFrom, _ast.Global, _ast.Nonlocal)):
+            return '.skip'
+        if isinstance(st, _ast.Assert):
+            return self.seq(self.reads(st.test, env, funcs, depth))
+        raise _p2l.Untranslatable(f"statement {type(st).__name__}")
+
+
+_EV = {'.wait': 0, '.reset': 1, '.abort': 2, '.wBkg': 3, '.rBkg': 4, '.wRms': 5, '.rRms': 6}
+
+
+def _tokens(term):
+    """the Lean-like term printed by _Skel as the token list of Skel.parse"""
+    import re as _re
+    toks = _re.findall(r'\(|\)|\.\w+', term)
+    out = []
+    k = 0
+    while k < len(toks):
+        t = toks[k]
+        if t in '()':
+            k += 1
+            continue
+        if t == '.ev':
+            out += [0, _EV[toks[k + 1]]]
+            k += 2
+            continue
+        if t == '.brk':
+            raise _p2l.Untranslatable("break / continue outside a loop the slicer can drop")
+        out.append({'.skip': 1, '.ret': 2, '.raise_': 3, '.seq': 4, '.ifMask': 5, '.ifData': 6, '.loop': 7, '.call': 8}[t])
+        k += 1
+    return out
+
+
+def _skeleton_target(src_path, lean_names):
+    tree = _ast.parse(open(src_path).read())
+    sk = _Skel(tree)
+    out, info = [], {}
+    if 'sigmaSkel' in lean_names:
+        fn = sk.module_funcs.get('sigma_filter')
+        if fn is None:
+            raise _p2l.Untranslatable("sigma_filter not found")
+        body = sk.block(fn.body, {'barrier': 'barrier'}, {}, 0)
+        out.append("/- " + body + " -/\ndef sigmaSkel : List Nat :=\n  " + repr(_tokens(body)))
+        info['sigmaSkel'] = []
+    if 'sf2Handlers' in lean_names:
+        fn = sk.module_funcs.get('_sf2')
+        if fn is None:
+            raise _p2l.Untranslatable("_sf2 not found")
+        tries = [s for s in fn.body if isinstance(s, _ast.Try)]
+        others = [s for s in fn.body if not isinstance(s, (_ast.Try, _ast.Expr))]
+        if len(tries) != 1 or others or tries[0].finalbody or tries[0].orelse:
+            raise _p2l.Untranslatable("_sf2 is not a single try/except around the call of sigma_filter")
+        t = tries[0]
+        calls = [n for n in _ast.walk(_ast.Module(body=t.body, type_ignores=[])) if isinstance(n, _ast.Call)
+                 and isinstance(n.func, _ast.Name) and n.func.id == 'sigma_filter']
+        if len(calls) != 1:
+            raise _p2l.Untranslatable("_sf2 does not call sigma_filter exactly once inside its try")
+        hs = []
+        for h in t.handlers:
+            cls = _ast.unparse(h.type) if h.type is not None else ''
+            skel = sk.block(h.body, {'barrier': 'barrier'}, {}, 0)
+            if '.ifData' in skel or '.ifMask' in skel or '.loop' in skel:
+                raise _p2l.Untranslatable(f"handler for {cls} branches")
+            import re as _re
+            evs = _re.findall(r'\(\.ev (\.\w+)\)', skel)
+            hs.append('("%s", %s, %s)' % (cls.replace('"', "'"), repr([_EV[e] for e in evs]),
+                                          'true' if '.raise_' in skel else 'false'))
+        out.append("def sf2Handlers : List (String × List Nat × Bool) :=\n  [" + ",\n   ".join(hs) + "]")
+        info['sf2Handlers'] = []
+    return "\n\n".join(out), info
+
+
+# hand the 'skel' targets to the slicer above: targets.generate calls the `translate_function` it imported;
+# replace that binding in the module that is loading this file (works for `import targets` and for the
+# command-line entry of py2lean.py alike)
+import inspect as _inspect
+
+
+def _install_skel_mode():
+    for fr in _inspect.stack():
+        g = fr.frame.f_globals
+        if 'translate_function' in g and '_load_targets' in g and not g.get('_c07_skel_mode'):
+            orig = g['translate_function']
+
+            def translate_function(src_path, qualname, outputs, mode, params, subst=None, calls=None, returns=None, **kw):
+                if mode == 'c07-skel':
+                    return _skeleton_target(src_path, [ln for _, ln in outputs])
+                return orig(src_path, qualname, outputs, mode, params, subst, calls, returns=returns, **kw)
+            g['translate_function'] = translate_function
+            g['_c07_skel_mode'] = True
+            return True
+    return False
+
+
+_install_skel_mode()
+
+TARGETS += [
+    dict(file='AegeanTools/BANE.py', func='sigma_filter', mode='c07-skel', params={}, outputs=[('sigma_filter', 'sigmaSkel')],
+         fallback={'sigmaSkel': 'def sigmaSkel : List Nat := Aegean.Model.C07.sigmaSkelHand'}),
+    dict(file='AegeanTools/BANE.py', func='_sf2', mode='c07-skel', params={}, outputs=[('_sf2', 'sf2Handlers')],
+         fallback={'sf2Handlers': 'def sf2Handlers : List (String × List Nat × Bool) := Aegean.Model.C07.sf2HandlersHand'}),
+]
